@@ -3,6 +3,7 @@ Line-protocol driver: one request per line on stdin, one answer per line on stdo
 Imports the executable model only (no Mathlib).
 -/
 import MPilot.Driver.Codec
+import MPilot.Model.EemsHeap
 
 open MPilot MPilot.Codec
 
@@ -18,9 +19,19 @@ def handleExec (toks : List String) : String :=
       | _, none => "bad-arr"
   | [] => "bad-op"
 
+/-- `alias <cmdspec> <n>`: does the command return its first input object when given `n` inputs? -/
+def handleAlias (toks : List String) : String :=
+  match toks with
+  | [spec, n] =>
+      match parseDataCmd spec, n.toNat? with
+      | some c, some k => if aliases c k then "1" else "0"
+      | _, _ => "bad-cmd"
+  | _ => "bad-op"
+
 def handle (line : String) : String :=
   match (line.trimAscii.toString.splitOn " ").filter (· != "") with
   | "exec" :: rest => handleExec rest
+  | "alias" :: rest => handleAlias rest
   | "ping" :: _ => "pong"
   | _ => "bad-op"
 
